@@ -109,9 +109,16 @@ void harness(void)
 	for (i = 0; i < NB; i++) if (i < len) buf[i] = alpha[nondet_uint() & 7u];
 	buf[len] = 0;
 	mpq_init(var);
-	n = mpq_EGlpNumReadStrXc(var, buf);
+	{
+		extern int qsv_gmp_live; int live0 = qsv_gmp_live;
+		n = mpq_EGlpNumReadStrXc(var, buf);
+		ASSERT(qsv_gmp_live == live0, "C18: the scanner clears every temporary number on every path, accepted or rejected (meaningful in the TOKENS variant of the model)");
+	}
 	ASSERT(0 <= n && n <= len, "C11: the scanner consumes at most the string");
 	ASSERT(DENV(var) != 0, "C11: the result is a rational with non-zero denominator");
+#ifdef QSV_GMP_TOKENS
+	mpq_clear(var);
+#endif
 #else
 #error "select FN_wellformed or FN_anybytes"
 #endif
